@@ -41,6 +41,10 @@ CHECKS["C14"] = ("E1-enum", "exploration",
   "Bounded-exhaustive over module graphs: every module list of <=3 modules over the full per-module domain (11M graph x output x mode cases; thorough adds n=4 and n=5 on reduced domains, 190M cases) plus 5 families of 6-8 modules, through the real ValidateModules, NewModuleGraph and exec.NewOutputModuleGraph; the staging is judged against an independent DFS closure and the ordering invariants, with a per-case watchdog for termination.",
   "Graph alphabet: one binary, one policy, names a..h; n>=6 only through hand-made families.",
   "bounded exhaustive enumeration of module graphs on the real staging code", "3/C14")
+CHECKS["C17"] = ("E1-enum", "exploration",
+  "Bounded-exhaustive over structurally arbitrary request messages: the full product of per-field domains (each including 'absent') for one module, restricted products for two and three modules (duplicates, self/mutual/dangling references, cycles through inputs and filters) and the request-level fields; every message is round-tripped through the wire format and pushed through the real validation, graph construction, hashing, staging, resolution and planning; a panic, a 30 s hang or unbounded heap growth is a violation.",
+  "In-process with recover + watchdog + heap guard instead of the designed sub-process sharding.",
+  "bounded exhaustive enumeration of request messages on the real validation/graph/plan code, crash and hang oracle", "3/C17")
 PENDING = {}
 def main():
     checks = []
